@@ -150,15 +150,25 @@ Definition decode_model (reserve : bool) (l : list Z) : option (list Z) :=
       end
   end.
 
+(* ---------- switches for the repairs in proposed_fixes/C13-*.diff ----------
+   All false on the recorded tree.  When a repair is applied to otto, the
+   coordinator flips its switch (and removes the matching ..._refuted theorem
+   and the open finding), so that the model keeps describing the code. *)
+Definition fixed_escape_at : bool := false.       (* C13-escape-at.diff *)
+Definition fixed_escape_astral : bool := false.   (* C13-escape-astral.diff *)
+Definition fixed_unescape_units : bool := false.  (* C13-unescape-units.diff *)
+
 (* ---------- escape ---------- *)
 (* builtinShouldEscape: A-Z a-z 0-9 * _ + - . /   (no '@') *)
-Definition otto_no_escape (c : Z) : bool := is_alpha c || is_dec c || mem c [42; 95; 43; 45; 46; 47].
+Definition otto_no_escape (c : Z) : bool :=
+  is_alpha c || is_dec c || mem c [42; 95; 43; 45; 46; 47] || (fixed_escape_at && (c =? 64)).
 (* the byte loop visits exactly the first byte of every rune (it advances by the
    rune width when it escapes, and a byte it copies is an ASCII rune) *)
+Definition escape_u16 (u : Z) : list Z := if u <? 256 then pct u else pct_u u.
 Definition escape_rune (r : Z) : list Z :=
   if (r <? 0x80) && otto_no_escape r then [r]
-  else let u := match units r with u :: _ => u | [] => 0 end in
-       if u <? 256 then pct u else pct_u u.
+  else if fixed_escape_astral then flat_map escape_u16 (units r)
+  else escape_u16 (match units r with u :: _ => u | [] => 0 end).
 Definition escape_model (l : list Z) : list Z := flat_map escape_rune (utf16_decode l).
 
 (* ---------- unescape ---------- *)
@@ -178,6 +188,27 @@ Fixpoint unescape_bytes (fuel : nat) (l : list Z) : list Z :=
           else c :: unescape_bytes f r
       end
   end.
+(* after C13-unescape-units.diff: the loop collects UTF-16 units (an escape gives
+   its unit, any other character its units) and decodes them at the end; the
+   escapes are ASCII, so the byte loop is a loop over the runes of the text *)
+Fixpoint unescape_units (fuel : nat) (l : list Z) : list Z :=
+  match l with
+  | [] => []
+  | c :: r =>
+      match fuel with
+      | O => flat_map units l
+      | S f =>
+          if c =? 37 then
+            match unescape_at r with
+            | Some (v, r') => v :: unescape_units f r'
+            | None => c :: unescape_units f r
+            end
+          else units c ++ unescape_units f r
+      end
+  end.
 Definition unescape_model (l : list Z) : list Z :=
-  let bytes := utf8_encode (utf16_decode l) in
-  utf16_encode (unescape_bytes (length bytes) bytes).
+  if fixed_unescape_units then
+    let rs := utf16_decode l in utf16_encode (utf16_decode (unescape_units (length rs) rs))
+  else
+    let bytes := utf8_encode (utf16_decode l) in
+    utf16_encode (unescape_bytes (length bytes) bytes).
